@@ -6,8 +6,8 @@ from props import c01
 from gen_hc import Sim, Net, pick_cfg, random_traffic, pick_len
 
 PROP = "C02"
-LAKE_TARGETS = ["Uflow.Props.C02", "Uflow.Props.C02Recv", "uflow_driver"]
-PROPS_FILES = ["C02", "C02Recv"]
+LAKE_TARGETS = ["Uflow.Props.C02", "Uflow.Props.C02Recv", "Uflow.Props.C02Live", "uflow_driver"]
+PROPS_FILES = ["C02", "C02Recv", "C02Live"]
 TRUSTED_BASE = c01.TRUSTED_BASE
 ASSUMPTIONS = ["'bounded time' is judged with a generous virtual-time budget (TFRC may have backed off to its 23 B/s floor, see the known finding on C11); volumes are kept small accordingly",
                "liveness through the real rate controller is not a theorem (DESIGN 6/C02): it is checked on every generated fair suffix"]
@@ -77,7 +77,9 @@ def oracle(stream, cid, ops, outs):
                     fails.append({"oracle": "reliable_delivered", "detail": "%s: Reliable packet #%d (%d bytes, channel %d) of %s never delivered although the connection is quiescent" %
                                   (ep, q.idx, q.len, q.chan, src), "signature": {"oracle": "reliable_delivered"}})
                     return fails
-    if sim.drained is False and not sim.dead:
+    if sim.drained is False and not sim.dead and not H.tail_progress(ops, outs):
+        # budget exhausted AND nothing moved during the last 300 virtual seconds (a connection that is merely slow - the rate
+        # controller near its 23 B/s floor with a backlog - is not a stalled one; its rate is C11's and C14's subject)
         fails.append({"oracle": "quiescence", "detail": "not quiescent after the fair suffix (%d virtual s): A pending/sbs %s, B %s" %
                       (sim.time // 10**9, gets.get("A", [{}])[-1].get("pending"), gets.get("B", [{}])[-1].get("pending")), "signature": {"oracle": "quiescence"}})
     if sim.drained:
